@@ -245,7 +245,7 @@ func runCheck(prop, tier, cfgPath, evDir, knownPath, replayDir string, verbose b
 	var obls []*Obligation
 	assumed := map[string]bool{}
 	var funcsUnder []map[string]any
-	var unsupportedFns []string
+	unsupportedFns := []string{}
 	pkgsUsed := map[string]bool{}
 	addFunc := func(name string, sweep bool) {
 		fi := vc.byShort[name]
@@ -371,7 +371,7 @@ func runCheck(prop, tier, cfgPath, evDir, knownPath, replayDir string, verbose b
 	}
 	exit := 0
 	os.MkdirAll(filepath.Join(replayDir, prop), 0o755)
-	var violNames []string
+	violNames := []string{}
 	for _, o := range violations {
 		rp := filepath.Join(replayDir, prop, sanitizeFile(o.Name)+".json")
 		confirmed := writeReplay(vc, o, rp, prop)
@@ -400,13 +400,13 @@ func runCheck(prop, tier, cfgPath, evDir, knownPath, replayDir string, verbose b
 		exit = 2
 	}
 	// evidence
-	var samples []any
+	samples := []any{}
 	for _, o := range obls {
 		if o.Status == "proved" && len(samples) < 6 {
 			samples = append(samples, map[string]any{"obligation": o.Name, "kind": o.Kind, "clause": o.Clause, "goal": o.Goal.short(), "facts": len(o.Facts), "solver": o.Res.Solver + "/" + o.Res.Mode, "time_s": o.Res.Time})
 		}
 	}
-	var asm []string
+	asm := []string{}
 	for a := range assumed {
 		asm = append(asm, a)
 	}
